@@ -6,10 +6,13 @@ import Ekit.Model.Races
     new stress <Type> <iters>        => clean | …      (4 workers, all methods)
     new seq <Type> <iters>           => clean | …      (writer sequences against readers)
     new directed <Type> <M1> <M2> <iters> => clean | … (directed search of checklib/props/C15.py)
+    new matrix <Type> <M1,M2,…>      => clean          (the methods the pair matrix goes through)
+    new types <T1,T2,…>              => clean          (the types the matrix covers)
 
 `spec` mode: the property itself — no data race (and no crash caused by one) was observed for the workload.
 `model` mode: additionally the regenerated access table must know both methods and declare the pair
-conflict-free (`pairOk`, the function `disciplinedBy_pairOk` / `c15_pairs_conflict_free` are about). -/
+conflict-free (`pairOk`, the function `disciplinedBy_pairOk` / `c15_pairs_conflict_free` are about), and every
+method the matrix lists must be an entry of the regenerated table (`listedVerdict`). -/
 namespace Driver.Races
 open Driver Ekit.Races Ekit.Conc.AccessTable
 
@@ -36,6 +39,21 @@ def checker (model : Bool) : Checker where
       | none =>
         if model then ((), pairVerdict Ekit.Gen.AccessTable.accessTable Ekit.Gen.AccessTable.entries t m₁ m₂)
         else ((), none)
+    | ["new", "matrix", t, ms] =>
+      match dyn s!"method list of {t}" with
+      | some msg => ((), some msg)
+      | none =>
+        -- every listed method must be an entry of the regenerated table; the converse (a public entry the matrix
+        -- does not exercise, `unexercised`) is NOT an alarm — a correctly locked new method is a harmless change and
+        -- is covered by the table obligation; checklib/props/C15.py records it in the evidence instead
+        if model then ((), listedVerdict Ekit.Gen.AccessTable.entries t (ms.splitOn ",")) else ((), none)
+    | ["new", "types", ts] =>
+      match dyn "type list" with
+      | some msg => ((), some msg)
+      | none =>
+        -- informational (see `uncoveredTypes`): accepted in both modes
+        let _ := ts
+        ((), none)
     | ["new", "stress", t, _] =>
       match dyn s!"mixed stress of {t}" with
       | some msg => ((), some msg)
